@@ -192,6 +192,25 @@ theorem ascFrom_mem (n e : Int) (inc : Nat) (w : Int) (h : w ∈ ascFrom n e inc
     · have := ih h; omega
   | case2 n hc => cases h
 
+/-- an ascending run holds at most `(end - n) / inc + 1` values -/
+theorem ascFrom_length (n e : Int) (inc : Nat) (hi : 0 < inc) :
+    ((ascFrom n e inc).length : Int) * inc ≤ max 0 (e - n + inc) := by
+  fun_induction ascFrom n e inc with
+  | case1 n hc ih =>
+    have ih' := ih
+    simp only [List.length_cons, Int.natCast_add, Int.natCast_one, Int.add_mul, Int.one_mul]
+    omega
+  | case2 n hc => simp; omega
+
+/-- a descending run (after its start) holds at most `(n - end) / inc` values -/
+theorem descFrom_length (n e : Int) (inc : Nat) :
+    ((descFrom n e inc).length : Int) * inc ≤ max 0 (n - e) := by
+  fun_induction descFrom n e inc with
+  | case1 n hc ih =>
+    simp only [List.length_cons, Int.natCast_add, Int.natCast_one, Int.add_mul, Int.one_mul]
+    omega
+  | case2 n hc => simp; omega
+
 theorem ascFrom_head (n e : Int) (inc : Nat) (hi : 0 < inc) (hn : n ≤ e) :
     ascFrom n e inc = n :: ascFrom (n + inc) e inc := by
   rw [ascFrom, dif_pos ⟨hi, hn⟩]
